@@ -57,7 +57,7 @@ fn icmp6_case(ty: Option<u8>, n: usize) {
                     assert!(handled, "C02: neighbour advertisement for an address outside the self-IP list");
                     assert!(dst == Some(target), "C03: solicited target not handed to layer 3 as the reply source");
                     let b = p.packet();
-                    assert!(b.len() == 32, "C05: neighbour advertisement is not 24 bytes + one 8-byte option");
+                    assert!(b.len() >= 32 && b.len() % 8 == 0, "C05: neighbour advertisement does not hold 24 bytes + an 8-byte option");
                     assert!(b[0] == 136 && b[1] == 0, "C05: reply is not a code-0 neighbour advertisement");
                     assert!(b[4] & 0x60 == 0x60, "C05: Solicited and Override flags not both set");
                     let i: usize = kani::any();
